@@ -705,6 +705,17 @@ pub fn generate8(seed: u64, index: u64, thorough: bool) -> Wire8Spec {
     for bytes in g2_real_rhs_messages(&mut fr) {
         ops.push(Fault::Bytes { b: hex(&bytes) });
     }
+    // valid G1 points with a boundary x or a boundary curve-equation value, in all three formats
+    for _ in 0..3 {
+        let fx = boundary_x(&mut fr);
+        let x = Q::new(from_be(&unhex(&fx.x)));
+        if let Some((x, y)) = model::g1_point_with_x(&x) {
+            let y = if y.is_odd() == fx.y_odd { y } else { y.neg() };
+            for f in FMTS {
+                ops.push(Fault::Bytes { b: hex(&ref_encode(&(x.clone(), y.clone()), f)) });
+            }
+        }
+    }
     // a quarter of the G1 messages carry a point with a boundary x-coordinate (leading zero
     // limbs, top limb tied with q's, (-1, +-2), ...) instead of a multiple of the generator
     let from_x = if g == Grp::G1 && pr.chance(1, 4) { Some(boundary_x(&mut pr)) } else { None };
